@@ -37,6 +37,12 @@ def lin(e, resolve=None, _depth=0):
         if not c2:
             return {a: v * k2 for a, v in c1.items()}, k1 * k2
         raise NotLinear()
+    if isinstance(e, ast.BinOp) and isinstance(e.op, (ast.Pow, ast.LShift)):
+        c1, k1 = lin(e.left, resolve, _depth + 1)
+        c2, k2 = lin(e.right, resolve, _depth + 1)
+        if not c1 and not c2 and 0 <= k2 <= 4096:
+            return {}, (k1 ** k2 if isinstance(e.op, ast.Pow) else k1 << k2)
+        raise NotLinear()
     if isinstance(e, ast.Name) and resolve is not None:
         r = resolve(e)
         if r is not None:
